@@ -55,11 +55,12 @@ const (
 	KEnvBlock
 	KChoose
 	KTimer
+	KSendWait
 )
 
 var kindNames = [...]string{"start", "lock", "unlock", "rlock", "runlock", "wannounce", "wacquire", "wunlock",
 	"atomic", "send", "recv", "close", "select", "sleep", "cancel", "yield", "spawn", "wgadd", "wgwait",
-	"condreg", "condpark", "condsignal", "condbroadcast", "semacquire", "semtry", "semrelease", "envblock", "choose", "timer"}
+	"condreg", "condpark", "condsignal", "condbroadcast", "semacquire", "semtry", "semrelease", "envblock", "choose", "timer", "sendwait"}
 
 func (k Kind) String() string { return kindNames[k] }
 
@@ -84,6 +85,13 @@ type Op struct {
 	HasDefault bool
 	Result     int64
 	Desc       string
+	Offer      *Offer // unbuffered channels: the value a sender holds out (send) / the one taken (recv, select)
+}
+
+// Offer is the value a goroutine blocked in a send on an unbuffered channel holds out to receivers.
+type Offer struct {
+	Val   any
+	taken bool
 }
 
 // G is a controlled goroutine.
@@ -134,6 +142,7 @@ type chState struct {
 	n      int
 	cap    int
 	closed bool
+	offers []*Offer // unbuffered channel: senders waiting with their values, in arrival order
 }
 
 type condState struct{ next, notified int64 }
@@ -355,7 +364,7 @@ func (s *Sched) selReady(c *SelCase) bool {
 	if c.Send {
 		return m.closed || m.n < m.cap
 	}
-	return m.n > 0 || m.closed
+	return m.n > 0 || m.closed || len(m.offers) > 0
 }
 
 //go:norace
@@ -374,13 +383,15 @@ func (s *Sched) enabled(op *Op) bool {
 			return false
 		}
 		m := s.ch(op.Key, op.Len, op.Cap)
-		return m.closed || m.n < m.cap
+		return m.closed || m.n < m.cap || op.Offer != nil
+	case KSendWait:
+		return op.Offer.taken || s.ch(op.Key, 0, 0).closed
 	case KRecv:
 		if op.Key == 0 {
 			return false
 		}
 		m := s.ch(op.Key, op.Len, op.Cap)
-		return m.n > 0 || m.closed
+		return m.n > 0 || m.closed || len(m.offers) > 0
 	case KSelect:
 		if op.HasDefault {
 			return true
@@ -597,13 +608,25 @@ func (s *Sched) grant(g *G) {
 		s.mu(op.Key).writer = false
 	case KSend:
 		m := s.ch(op.Key, op.Len, op.Cap)
-		if !m.closed {
+		if m.closed {
+			op.Result = -1
+		} else if op.Offer != nil {
+			m.offers = append(m.offers, op.Offer)
+		} else {
 			m.n++
+		}
+	case KSendWait:
+		if !op.Offer.taken {
+			op.Result = -1 // closed while waiting
 		}
 	case KRecv:
 		m := s.ch(op.Key, op.Len, op.Cap)
 		if m.n > 0 {
 			m.n--
+			op.Result = 1
+		} else if len(m.offers) > 0 {
+			op.Offer, m.offers = m.offers[0], m.offers[1:]
+			op.Offer.taken = true
 			op.Result = 1
 		} else {
 			op.Result = 0
@@ -645,6 +668,9 @@ func (s *Sched) grant(g *G) {
 				}
 			} else if m.n > 0 {
 				m.n--
+			} else if len(m.offers) > 0 {
+				op.Offer, m.offers = m.offers[0], m.offers[1:]
+				op.Offer.taken = true
 			}
 		}
 	case KWGAdd:
